@@ -754,7 +754,11 @@ func checkEnv(c *Ctx, e envCase, emit bool) {
 		for k := 0; k < 2; k++ {
 			var args []string
 			for i := 0; i < np; i++ {
-				args = append(args, sampleArgs[c.R.Intn(len(sampleArgs))])
+				a := sampleArgs[c.R.Intn(len(sampleArgs))]
+				if strings.HasPrefix(n, "op") { // the operator-adjacency functions compute on integers
+					a = []string{"5", "3", "0", "-4", "7"}[c.R.Intn(5)]
+				}
+				args = append(args, a)
 			}
 			call := n + "(" + strings.Join(args, ",") + ")"
 			r1 := callObs(s1, out1, call)
@@ -1153,6 +1157,11 @@ func (x *gen) environment(findings bool) []string {
 	// a function or lambda whose body holds string literals over the whole byte universe (incl. raw-string sources)
 	if x.intn(3) == 0 {
 		s, _ := x.strFunc()
+		st = append(st, s)
+	}
+	// a function or lambda whose body puts a prefix operator right after a binary one (or a binary after a postfix)
+	if x.intn(3) == 0 {
+		s, _ := x.adjFunc()
 		st = append(st, s)
 	}
 	// history: a function writes a global through a reference; an alias of a function; a one-line quote
